@@ -92,12 +92,12 @@ var c19Start = hx.Register(&hx.Check[c19StartCase]{
 			o.Failf(sig("root-name"), "export from %s has the root element <%s>, the start node is %s\n%s", findPath(c.Start), x.Name, sn.Name, text)
 			return
 		}
-		if x.NS != "urn:"+c.Module.Name {
+		if x.NS != c.Module.Namespace() {
 			o.Failf(sig("namespace"), "root element <%s> is in namespace %q\n%s", x.Name, x.NS, text)
 			return
 		}
 		if st, isTree := sv.(dm.Tree); isTree && kind != "list" {
-			got, probs := dm.XMLToTree(sn, x, "urn:"+c.Module.Name, "")
+			got, probs := dm.XMLToTree(sn, x, c.Module.Namespace(), "")
 			if len(probs) > 0 {
 				o.Failf(sig(probs[0].Clause+"-"+probs[0].Kind), "%s\n%s", probs[0], text)
 				return
